@@ -113,6 +113,9 @@ theorem scaled_text_roundtrip (H : ScaledRoundTrip) (s : Int) (rest : List Char)
     rw [h2]
     simp; omega
 
+example : WordEnd [')'] := ⟨by decide, by decide⟩
+example : WordEnd [',', ' '] := ⟨by decide, by decide⟩
+
 /-- The same for an infinite glue component `<number>fil|fill|filll`, for every amount
 other than `i32::MIN`. -/
 theorem infinite_glue_text_roundtrip (H : ScaledRoundTrip) (s : Int) (o : InfOrder)
